@@ -263,6 +263,35 @@ def solve_reentrant(prog: Program, rep, RID: str):
         rep.ok(RID, key, "every call re-installs the minimum-error model first", f.loc(rebuilt))
 
 
+def bound_excludes_ignored(prog: Program, rep, RID: str):
+    """MinErrorFlow's w_max - the bound of every variable (w_max * |E|) and the big-M of the few-flow-values model - is the largest weight of a *non-ignored*
+    element: the weight of an ignored element (missing, NaN, arbitrarily large) must not reach the model (the rule of the ten path / walk models, C10)."""
+    from rules.search import comprehension_excludes_ignored
+    f = prog.own_method("MinErrorFlow", "__init__")
+    stores = [st for st in walk_no_nested(f.node) if isinstance(st, ast.Assign) and any(norm(t) == "self.w_max" for t in st.targets)]
+    if not stores:
+        raise AnalysisError("MinErrorFlow.__init__: self.w_max is not stored")
+    key = "MinErrorFlow.__init__:w_max-excludes-ignored"
+    for st in stores:
+        v = st.value
+        if not (isinstance(v, ast.Call) and dotted(v.func) == "max"):
+            raise AnalysisError(f"MinErrorFlow.__init__: w_max = `{norm(v)[:60]}` is not a max(...)")
+        reads = [n for n in ast.walk(v) if isinstance(n, (ast.ListComp, ast.GeneratorExp, ast.SetComp)) and "flow_attr" in norm(n.elt)]
+        if not reads:
+            raise AnalysisError("MinErrorFlow.__init__: the weights under max(...) were not found")
+        # ignore set complete at this point: the scale-0 elements are added before
+        upd = [s2 for s2 in walk_no_nested(f.node) if isinstance(s2, ast.AugAssign) and norm(s2.target) == "self.edges_to_ignore" and "factor == 0" in norm(s2.value).replace("0 == factor", "factor == 0")]
+        late = [s2 for s2 in upd if s2.lineno > st.lineno]
+        if all(comprehension_excludes_ignored(n) for n in reads) and not late:
+            rep.ok(RID, key, "the maximum runs over the elements that are not ignored (scale-0 elements included in the ignore set before)", f.loc(st))
+        elif late:
+            rep.violation(RID, key, "w_max is computed before the elements with error scaling factor 0 are added to the ignore set: their weights still reach the bound", f.loc(st))
+        else:
+            rep.violation(RID, key, f"`{norm(v)[:100]}` takes the maximum over all edges, the ignored ones included: the weight of an ignored element reaches the model as the "
+                          "bound of every variable and the big-M of the few-flow-values model - an ignored weight NaN makes the constructor raise, an ignored weight 1e9 makes "
+                          "the few-flow-values model report 1 distinct value where 3 is the minimum", f.loc(st), self_contained=True)
+
+
 def check(prog: Program, rep):
     rep.rule("C16.R1", "formulation conforms to the frozen table; non-negativity; epsilon budget row; scale 0 => ignored", floor=20)
     conformance(prog, rep, "C16.R1", "C16")
@@ -290,6 +319,7 @@ def check(prog: Program, rep):
     from rules.c12 import bounds_materialised
     from rules.common import RuleProxy
     bounds_materialised(prog, RuleProxy(rep, "C16.R8"), "C12.R7")
+    bound_excludes_ignored(prog, rep, "C16.R8")
     from rules.values import coefficients_converted
     coefficients_converted(prog, rep, "C16.R7", ["MinErrorFlow"])
     from rules.values import python_arithmetic
